@@ -198,9 +198,36 @@ func init() {
 		cr.trusted = append(cr.trusted, "gosx SSA->SMT executor", "z3 4.8.12")
 	}}
 	checkDefs["C08"] = &checkDef{level: "other", pkgs: []string{nodePkg}, run: func(cr *CheckRun) {
-		cr.owner = func(l string) bool { return hasPrefixAny(l, "round-isolated", "clock-free", "foreign-recipient-noop", "batching-free") }
-		runNodeMessage(cr)
-		cr.explanation = "Round isolation: in every path of the one-message harness (all events, senders, payloads, representative round states) a message carrying one round id leaves the dump and the signature store of every other round byte-identical."
+		cr.owner = func(l string) bool { return hasPrefixAny(l, "round-isolated", "clock-free", "maporder-free") }
+		reps := nodeCommon(cr)
+		jobs := nodeMessageJobs(cr, reps)
+		// determinism: the same message handled by two nodes with independent clocks / map orders
+		opts := defaultOpts()
+		opts.MaxPaths = 40000
+		pmode := "reverse"
+		for _, a := range reps {
+			if strings.HasPrefix(a, "__idle") {
+				continue
+			}
+			for _, ev := range fsmEvents {
+				for _, perm := range []string{"", "1"} {
+					tag := "clock"
+					if perm == "1" {
+						tag = "maporder"
+					}
+					jobs = append(jobs, Job{Pkg: nodePkg, Fn: "VF_C08_Determinism", Opts: opts, Tag: tag + " state=" + a + " event=" + ev,
+						Case:   tag + " state=" + absState(a) + " event=" + ev,
+						Params: map[string]string{"abs": a, "event": ev, "permute": perm, "permute_mode": pmode, "norange": "1", "maxn": "2", "tag": fmt.Sprintf("c08_%d", len(jobs))}})
+				}
+			}
+		}
+		res := cr.Pool.Run(jobs)
+		cr.absorb(jobs, res)
+		cr.states = len(reps)
+		cr.trans = cr.Pool.Paths
+		cr.bounds["map_iteration_order"] = "canonical order vs. the reversed order of every Go map range executed inside ProcessMessage (all maps reversed at once; for n=2 quorums these are the only two orders of each map; combinations that reverse only some maps are outside)"
+		cr.samples = append(cr.samples, map[string]interface{}{"determinism_jobs": len(jobs), "representative_states": reps})
+		cr.explanation = "Round isolation: in every path of the one-message harness a message carrying one round id leaves the dump and the signature store of every other round byte-identical. Clock freedom: the same genuinely signed message handled by two nodes over identical stores with independent time.Now streams yields the same public projection (phase, statuses, contributions, threshold, polynomial), the same pending operations (id, type, payload), signatures and board output. Map-order freedom: the second node handles the message with every Go map range iterated in reverse order."
 	}}
 }
 
@@ -315,5 +342,76 @@ func init() {
 		cr.bounds["outside"] = "ApproveParticipation, reinit finish and state reset as the API side; races below the granularity of a state-store call (e.g. Reset swapping the DB handle under SaveOffset); more than one message per tick; n > 2"
 		cr.assume = append(cr.assume, "a context switch can only happen at a state-store call or a board send; sync.Mutex gives mutual exclusion; everything else as in C09")
 		cr.trusted = append(cr.trusted, "gosx SSA->SMT executor with logical threads (engine/sched.go)", "z3 4.8.12")
+	}}
+}
+
+// signing at node level: C01, C03, C07 share VF_NodeSign
+func signJobs(cr *CheckRun) []Job {
+	opts := defaultOpts()
+	var jobs []Job
+	add := func(t, ntasks, o1, o2 int) {
+		jobs = append(jobs, Job{Pkg: nodePkg, Fn: "VF_NodeSign", Opts: opts,
+			Tag:  fmt.Sprintf("n=3 t=%d tasks=%d order=%d order2=%d", t, ntasks, o1, o2),
+			Case: fmt.Sprintf("t=%d", t),
+			Params: map[string]string{"t": fmt.Sprint(t), "ntasks": fmt.Sprint(ntasks), "order": fmt.Sprint(o1), "order2": fmt.Sprint(o2),
+				"blob_axioms": "1", "blob_distinct": "1", "tag": fmt.Sprintf("sign_%d", len(jobs))}})
+	}
+	if cr.Tier == "thorough" {
+		for o1 := 0; o1 < 6; o1++ {
+			for o2 := 0; o2 < 6; o2++ {
+				add(2, 1, o1, o2)
+			}
+			add(3, 1, o1, 0)
+			add(2, 2, o1, (o1+3)%6)
+		}
+	} else {
+		for o1 := 0; o1 < 6; o1++ {
+			add(2, 1, o1, (o1+1)%6)
+		}
+		add(3, 1, 0, 0)
+		add(3, 1, 5, 0)
+		add(2, 2, 2, 4)
+	}
+	cr.bounds["signing_scenario"] = "n=3; t=2 (two batches; the slow participant of batch 1 answers while batch 2 is collected) and t=3; 1..2 explicit messages per batch with 2 symbolic payload bytes; arrival orders: quick 6 first-batch orders x 1 second-batch order each, thorough all 36 pairs; shares symbolic (index, value) with the validity predicate assumed for honest signers"
+	cr.bounds["outside"] = "BLS12-381 arithmetic and Ethereum-verifier agreement (contract: tbls.Recover returns Sig(poly,msg) when t valid shares with distinct indices are given and t >= #commitments); Byzantine partial signatures; n > 3; baked ranges inside batches (C17 covers their payloads)"
+	cr.assume = append(cr.assume,
+		"kyber contracts of engine/intrin_kyber.go (tbls.Recover, point decoding, NewPubPoly)",
+		"md5/hex/base64 injective; structurally different JSON texts are different byte strings",
+		"ed25519 contract; LevelDB = atomic map; encoding/json = typed structural codec")
+	cr.trusted = append(cr.trusted, "gosx SSA->SMT executor", "z3 4.8.12", "kyber v1.6.0 contracts (DESIGN Appendix D)")
+	return jobs
+}
+
+func runSign(cr *CheckRun) {
+	jobs := signJobs(cr)
+	res := cr.Pool.Run(jobs)
+	cr.absorb(jobs, res)
+	cr.samples = append(cr.samples, map[string]interface{}{"scenarios": len(jobs), "first": jobs[0].Tag})
+	// translator/contract validation: the same scenario natively, with a real kyber polynomial, real shares, real Recover
+	if len(cr.fails) == 0 {
+		cr.validateNatively(jobs[0], nil, nil)
+		cr.validateNatively(jobs[len(jobs)-1], nil, nil)
+	}
+}
+
+func init() {
+	checkDefs["C01"] = &checkDef{level: "other", pkgs: []string{nodePkg}, run: func(cr *CheckRun) {
+		cr.owner = func(l string) bool { return hasPrefixAny(l, "stored-is-recovered", "stored-entry-labels", "reconstruction-broadcast") }
+		runSign(cr)
+		cr.explanation = "Hot-node half of C01 at contract level: the real reconstructThresholdSignature/recoverFullSign/broadcastReconstructedSignatures/processSignature/SaveSignatures run from SSA over the kyber contract stubs; for every arrival order of partial signatures and every t-subset, each stored and broadcast signature equals the uninterpreted Sig(poly, proposed payload) with the round's polynomial and threshold - hence is independent of subset and order. Curve arithmetic is outside."
+	}}
+	checkDefs["C03"] = &checkDef{level: "other", pkgs: []string{nodePkg}, run: func(cr *CheckRun) {
+		cr.owner = func(l string) bool { return hasPrefixAny(l, "stored-payload-is-proposed", "proposal-entry-payload-is-proposed", "stored-is-recovered") }
+		runSign(cr)
+		cr.explanation = "Hot-node half of C03: the payload bytes handed to reconstruction (observable through Sig(poly, .)), the SrcPayload stored next to the signature and the payload stored at proposal time are byte-identical to the payload in the proposal on the board, for symbolic payloads. The airgapped signer's expansion uses the same TasksToMessages (C18/C17 cover it); the signer itself needs kyber and is outside."
+	}}
+	checkDefs["C07"] = &checkDef{level: "model_checking", pkgs: []string{nodePkg}, run: func(cr *CheckRun) {
+		cr.owner = func(l string) bool {
+			return hasPrefixAny(l, "all-batches-stored", "ends-idle", "late-answer-noop", "proposal-accepted", "honest-answer-accepted", "broadcast-accepted")
+		}
+		runSign(cr)
+		cr.states = len(cr.slow)
+		cr.trans = cr.Pool.Paths
+		cr.explanation = "Liveness reduced to bounded reachability: in every log of the bounded family (orders of t honest answers, a slow participant answering the previous batch in the middle of the next one) the node accepts the proposal and the t answers, reconstructs, stores every message of the batch, ends in stage_signing_idle, rejects the late answer without any change and completes the next batch."
 	}}
 }
